@@ -193,6 +193,34 @@ def run(ck, P):
           path=rules.fmt_path(sp_fn, bad[1]) if bad else None,
           witness=[("del_event", sp_fn.unit, sp_fn.name, d.block.id, d.idx) for d in decs])
 
+    # ZOMBIE is final and is never entered from RUNNING: the only store of a state outside start/stop/registration is the ZOMBIE store of
+    # mod_deregister, preceded by stop(m, true).  stop() runs on_stop(), which may call back into the library: a restart from there is
+    # refused because (a) the module has already left the context's registry when stop() is called and (b) start() refuses, before any
+    # effect, a module that is not registered in its context.
+    md = P.fn("mod_deregister", "Lib/core/mod.c")
+    ck.analysed(md)
+    zs = [e for e in P.writes_to_field("_mod", "state") if e.fn is md]
+    others = [e for e in P.writes_to_field("_mod", "state") if e.fn.name not in ("start", "stop", "mod_deregister", "m_mod_register")]
+    ck.ob("C01.3-COUNTER", "Lib/core:_mod.state writers", not others and bool(zs) and all(cval(e.rhs) == E["M_MOD_ZOMBIE"] for e in zs),
+          "state is stored only by start, stop, m_mod_register (IDLE) and mod_deregister (ZOMBIE): %s" % sorted({e.fn.name for e in P.writes_to_field("_mod", "state")}),
+          nontrivial=False)
+    rmv = [e for e in md.events() if e.kind in ("call", "assign", "decl") and
+           ((e.kind == "call" and e.callee == "m_map_remove") or (e.kind != "call" and e.rhs is not None and strip(e.rhs).get("callee") == "m_map_remove"))]
+    stp = list(md.calls("stop"))
+    gate = [g for g in rules.bailouts(st_fn) if any(a.startswith("(m_map_get(") and a.endswith(" == mod)") and pol is True for (a, pol) in g.cont_atoms)]
+    eff_st = [e for e in st_fn.events() if (e.kind in ("assign", "incdec") and rules.lvalue_class(e.lhs) != "local") or
+              (e.kind == "call" and e.callee in ("init_pubsub_fd", "manage_srcs", "optional_hook"))]
+    unguarded = [e for e in eff_st if not any(a.startswith("(m_map_get(") and pol is True for (a, pol) in (X.facts(st_fn, e, passed=True) or ()))]
+    okz = bool(rmv) and bool(stp) and all(any(md.ev_dominates(r, s_) for r in rmv) for s_ in stp) and bool(gate) and all(g.retval is not None and g.retval < 0 for g in gate) \
+        and not unguarded
+    ck.ob("C01.3-COUNTER", md.site("no restart while deregistering"), okz,
+          "the module leaves the registry before its final stop(), and start() refuses an unregistered module before any effect: on_stop() cannot bring the "
+          "module back to RUNNING under the ZOMBIE store" if okz else
+          "a module's on_stop() hook, run by its deregistration, can restart it (m_mod_start is accepted: %s): the ZOMBIE store then buries a RUNNING module — "
+          "it stays counted in running_modules, keeps its pipe open and its sources polled"
+          % ("start() has no registry-membership guard" if not gate else ("effect '%s' of start() precedes the guard" % S(unguarded[0].e)[:50] if unguarded else
+                                                                           "stop() is called before the module left the registry")))
+
     # ------------------------------------------------------------------ 4. hook invocation sites
     ck.rule("C01.4-HOOKSITES", "R-WHO-CALLS + constants: hook.on_start/on_stop/on_eval are invoked only in optional_hook under "
             "the matching request (MOD_START/MOD_STOP/MOD_EVAL); optional_hook is called with MOD_START only from start under "
